@@ -21,6 +21,8 @@ pub struct Variant {
     /// `$loc` is the target of a `ref.func` in some body and is declared for that only by being
     /// exported (it is not listed in the element segment)
     pub ref_func_loc: bool,
+    /// the module already holds a declared element segment, written in the expression form
+    pub declared_expr_segment: bool,
 }
 
 #[derive(Clone, Copy, Debug, PartialEq, Eq)]
@@ -95,6 +97,9 @@ fn wat(v: &Variant, replaced: Option<(Target, usize, usize)>) -> String {
         s += &format!("  (func $s (type $v) {})\n", body_s(rb));
     }
     s += "  (func $loc (type $t) (i32.add (local.get 0) (i32.const 100)))\n";
+    if v.declared_expr_segment {
+        s += "  (func $h (type $v))\n  (elem declare funcref (ref.func $h))\n  (func (export \"rh\") (result i32) (ref.is_null (ref.func $h)))\n";
+    }
     if v.ref_func_loc {
         s += &format!("  (elem (i32.const 0) $a {} $a)\n", if v.two_imports { "$b" } else { "$a" });
         s += "  (func (export \"rf\") (result i32) (ref.is_null (ref.func $loc)))\n";
@@ -277,7 +282,7 @@ pub fn plan_one(v: &Variant, t: Target, body: usize) -> Result<Planned, String> 
     if t == Target::ExportLoc && v.double_export {
         expected.push(assemble(&wat(v, Some((t, body, 1))))?);
     }
-    let cfg = json!({"with_start": v.with_start, "reexport": v.reexport, "double_export": v.double_export, "two_imports": v.two_imports, "dup_names": v.dup_names, "ref_func_loc": v.ref_func_loc, "target": format!("{:?}", t), "body": body});
+    let cfg = json!({"with_start": v.with_start, "reexport": v.reexport, "double_export": v.double_export, "two_imports": v.two_imports, "dup_names": v.dup_names, "ref_func_loc": v.ref_func_loc, "declared_expr_segment": v.declared_expr_segment, "target": format!("{:?}", t), "body": body});
     Ok(Planned {
         case: Case { family: "replace".into(), coords: format!("{:?} {:?} body={}", v, t, BODIES[body]), wasm: orig.clone(), cfg },
         orig,
@@ -290,8 +295,12 @@ pub fn plan_one(v: &Variant, t: Target, body: usize) -> Result<Planned, String> 
 
 pub fn plan() -> Vec<Planned> {
     let mut out = vec![];
-    for bits in 0..96u32 {
-        let v = Variant { with_start: bits & 1 != 0, reexport: bits & 2 != 0, double_export: bits & 4 != 0, two_imports: bits & 8 != 0, dup_names: ((bits / 16) % 3) as u8, ref_func_loc: bits >= 48 };
+    for bits in 0..144u32 {
+        // the third block of 48: ref_func_loc together with an expression-form declared segment
+        let v = Variant { with_start: bits & 1 != 0, reexport: bits & 2 != 0, double_export: bits & 4 != 0, two_imports: bits & 8 != 0, dup_names: ((bits / 16) % 3) as u8, ref_func_loc: bits >= 48, declared_expr_segment: bits >= 96 };
+        if bits >= 96 && (v.dup_names != 0 || v.reexport) {
+            continue;
+        }
         let mut targets = vec![Target::ImportA, Target::ExportLoc];
         if v.two_imports {
             targets.push(Target::ImportB);
@@ -378,6 +387,7 @@ fn replan(c: &Case) -> Option<Planned> {
         two_imports: c.cfg["two_imports"].as_bool()?,
         dup_names: c.cfg["dup_names"].as_u64().unwrap_or(0) as u8,
         ref_func_loc: c.cfg["ref_func_loc"].as_bool().unwrap_or(false),
+        declared_expr_segment: c.cfg["declared_expr_segment"].as_bool().unwrap_or(false),
     };
     plan_one(&v, target_of(c.cfg["target"].as_str()?), c.cfg["body"].as_u64()? as usize).ok()
 }
